@@ -72,7 +72,28 @@ PutCell(t, g) ==
 
 RECURSIVE StrFrom(_, _, _)
 StrFrom(t, s, i) == IF i > Len(s) THEN t ELSE StrFrom(PutCell(t, s[i]), s, i + 1)
-Str(t, s) == StrFrom(t, s, 1)
+
+(* Fast path (an optimisation of the evaluation, same meaning): a run of   *)
+(* one-column glyphs stored into blank slots of the current row is written *)
+(* in one step; longer runs are cut at the right edge and continue on the  *)
+(* next row exactly as the glyph-by-glyph rule would.                      *)
+Narrow(s, a, b) == \A j \in a..b : s[j] >= 32 /\ s[j] < 1000
+FreeSlots(t, n) == /\ \A j \in (t.c + 1)..(t.c + n) : t.rows[t.r][j] = 0
+                   /\ (t.c + n < t.w => t.rows[t.r][t.c + n + 1] # -1)
+RECURSIVE StrRun(_, _, _)
+StrRun(t, s, i) ==
+    IF i > Len(s) THEN t
+    ELSE IF t.c >= t.w THEN StrRun(PutCell(t, s[i]), s, i + 1)
+    ELSE LET n == Min(Len(s) - i + 1, t.w - t.c) IN
+         IF FreeSlots(t, n)
+         THEN StrRun([t EXCEPT !.rows[t.r] = [j \in 1..t.w |-> IF j > t.c /\ j <= t.c + n
+                                                              THEN (IF s[i + j - t.c - 1] = SP THEN 0 ELSE s[i + j - t.c - 1])
+                                                              ELSE t.rows[t.r][j]],
+                                 !.c = t.c + n], s, i + n)
+         ELSE StrRun(PutCell(t, s[i]), s, i + 1)
+Str(t, s) == IF s = <<>> THEN t
+             ELSE IF Narrow(s, 1, Len(s)) THEN StrRun(t, s, 1)
+             ELSE StrFrom(t, s, 1)
 Line(t, s) == CRet(LF(Str(t, s)))
 
 (* One logged TermLike call: [k |-> kind, n |-> count, c |-> cells].       *)
